@@ -2,7 +2,17 @@
 
 package reputation
 
-// VerifPoolRunning returns the number of tasks the processor's worker pool is
-// currently running. The C35/C37/C38 harness invokes the registered (async)
-// handlers and waits until the pool is idle again. Only code is added.
-func (rp *Processor) VerifPoolRunning() int { return rp.pool.Running() }
+import "runtime"
+
+// VerifWaitIdle returns after every task handed to the processor's worker pool
+// before the call has finished. It needs a pool of size 1: a marker task is
+// accepted by the non-blocking pool only after the single worker finished its
+// previous task. Used by the C35/C37/C38 harness to wait for the registered
+// (asynchronous) handlers. Only code is added.
+func (rp *Processor) VerifWaitIdle() {
+	done := make(chan struct{})
+	for rp.pool.Submit(func() { close(done) }) != nil {
+		runtime.Gosched()
+	}
+	<-done
+}
